@@ -176,7 +176,16 @@ func init() {
 		now := w.ctx.BlockTime()
 		hts := now.Add(-time.Minute)
 		hdr1, order1 := w.pool.mkIBCHeader(h1s, keys, powers, trusted, trustedHeight, hts)
-		hdr2, order2 := w.pool.mkIBCHeader(h2s, keys, powers, trusted, clienttypes.NewHeight(clienttypes.ParseChainID(h2s.chain), uint64(op.i("th"))), hts)
+		keys2, powers2 := keys, powers
+		if op.has("vals2") {
+			// header 2 has its own validator set (other members, powers and hence another order)
+			keys2, powers2 = nil, nil
+			for _, kv := range op.pairs("vals2") {
+				keys2 = append(keys2, kv.a)
+				powers2 = append(powers2, kv.b)
+			}
+		}
+		hdr2, order2 := w.pool.mkIBCHeader(h2s, keys2, powers2, trusted, clienttypes.NewHeight(clienttypes.ParseChainID(h2s.chain), uint64(op.i("th"))), hts)
 		*extra = append(*extra, "order1", fmtInt64s(order1), "order2", fmtInt64s(order2))
 		var torder []int64
 		for _, v := range trusted.Validators {
